@@ -79,6 +79,41 @@ Example C10_nonvacuous_cmd : forall gen before,
   /\ run_cmd gen [demo_ok] before = (ExitOk, {| f_routes := Some (fst (gen [demo_ok])); f_spec := Some (snd (gen [demo_ok])) |}).
 Proof. exact demo_cmd. Qed.
 
+(* A problem in the properties object of an annotation (unknown key, `name` where none is taken, wrong type)
+   is a warning and masks nothing: the error-severity verdict of the annotation checks is the one of the same
+   comment without the unknown property key. *)
+Theorem C10_props_warnings_mask_nothing : forall r,
+  no_error (common_diags r) = no_error (common_diags (route_without_xprop r)).
+Proof. exact props_warnings_mask_nothing. Qed.
+
+(* @Hidden only removes the operation from the OpenAPI document.  The property text does not depend on it,
+   and a hidden route is accepted only if it is well linked. *)
+Theorem C10_well_linked_with_hidden : forall r, well_linked (with_hidden r) = well_linked r.
+Proof. exact well_linked_with_hidden. Qed.
+
+Theorem C10_hidden_not_exempt : forall r,
+  existsb (kind_is KHidden) (r_attrs r) = true ->
+  in_scope r = true -> sound_excl r = false -> accepted r = true -> well_linked r = true.
+Proof. exact hidden_not_exempt. Qed.
+
+(* non-vacuity: a hidden well-linked route is accepted without any diagnostic; a hidden route with an unbound
+   URL parameter gets an error diagnostic; an annotation with a property warning AND a link error keeps the
+   error (codes: 6/5 = property warnings, 9 = duplicate value, 4 = unsupported verb) *)
+Example C10_nonvacuous_hidden :
+  (in_scope demo_hidden_ok = true /\ well_linked demo_hidden_ok = true /\ accepted demo_hidden_ok = true
+   /\ validate demo_hidden_ok = VDiags [])
+  /\ (in_scope demo_hidden_unbound = true /\ sound_excl demo_hidden_unbound = false
+      /\ well_linked demo_hidden_unbound = false /\ has_error_diag demo_hidden_unbound = true).
+Proof. exact demo_hidden_facts. Qed.
+
+Example C10_nonvacuous_props_warning :
+  (in_scope demo_xprop_double_ref = true /\ well_linked demo_xprop_double_ref = false
+   /\ has_error_diag demo_xprop_double_ref = true
+   /\ obs_of (validate demo_xprop_double_ref) = (2, [(6, 2); (9, 1)]))
+  /\ (in_scope demo_xprop_verb = true /\ well_linked demo_xprop_verb = false
+      /\ obs_of (validate demo_xprop_verb) = (2, [(5, 2); (4, 1)])).
+Proof. exact demo_xprop_facts. Qed.
+
 Print Assumptions C10_url_params_spec.
 Print Assumptions C10_sound_partial.
 Print Assumptions C10_complete_partial.
@@ -91,3 +126,8 @@ Print Assumptions C10_no_output.
 Print Assumptions C10_output_only_accepted.
 Print Assumptions C10_nonvacuous.
 Print Assumptions C10_nonvacuous_cmd.
+Print Assumptions C10_props_warnings_mask_nothing.
+Print Assumptions C10_well_linked_with_hidden.
+Print Assumptions C10_hidden_not_exempt.
+Print Assumptions C10_nonvacuous_hidden.
+Print Assumptions C10_nonvacuous_props_warning.
